@@ -101,6 +101,7 @@ type director struct {
 	wg   sync.WaitGroup
 	done map[string]chan struct{}
 	mu   sync.Mutex
+	hung bool // a hang was already reported for this schedule
 }
 
 func (d *director) goProc(name string, lc *local, steps ...Step) chan struct{} {
@@ -119,14 +120,38 @@ func (d *director) goProc(name string, lc *local, steps ...Step) chan struct{} {
 	return ch
 }
 
-// await waits for a gate arrival or a return; false = the schedule could not be followed (desync,
-// inconclusive, never a verdict).
+// await waits for a gate arrival or a return that the schedule needs in order to go on. A step that
+// is not reached goes through the SAME classification as every other call that does not return
+// (waitOrHang): all calls in flight parked inside the SDK in identical frames over the confirmation
+// window = `hung` (blocking forever is this property's subject; reported with the call chain);
+// anything else = the schedule could not be followed (inconclusive, never a verdict).
 func (d *director) await(ch <-chan struct{}, what string) bool {
+	if d.hung {
+		return false
+	}
+	hung, where, dump := d.s.waitOrHang(ch)
+	if hung {
+		d.hung = true
+		d.s.reportHang(where, dump)
+		return false
+	}
 	select {
 	case <-ch:
 		return true
-	case <-time.After(30 * time.Second):
-		d.s.res.Inconcl(fmt.Sprintf("directed %s: %s not reached within 30s (desync)", d.s.sc.Name, what))
+	default:
+		d.s.res.Inconcl(fmt.Sprintf("directed %s: %s not reached within %s without meeting the hang criterion: %s",
+			d.s.sc.Name, what, d.s.bound, d.s.lastDiag))
+		return false
+	}
+}
+
+// soon reports whether ch closes within a short while. For expectations the statement does not
+// make (a call that MAY wait for another one in progress): not reached = the schedule simply goes on.
+func (d *director) soon(ch <-chan struct{}) bool {
+	select {
+	case <-ch:
+		return true
+	case <-time.After(2 * time.Second):
 		return false
 	}
 }
@@ -141,7 +166,10 @@ func newDirected(i int, sc Scenario, tw *vh.TraceWriter, res *vh.Result, bound t
 func (d *director) end(quiescentIfDone bool) {
 	all := make(chan struct{})
 	go func() { d.wg.Wait(); close(all) }()
-	q := d.s.finish(all)
+	q := false
+	if !d.hung { // (a reported hang leaves its goroutines parked for good)
+		q = d.s.finish(all)
+	}
 	d.s.em.ev("EndScenario", "quiescent", q && quiescentIfDone)
 	d.s.cleanup()
 	d.s.res.Executed++
@@ -255,8 +283,14 @@ func slowShutdown(i int, tw *vh.TraceWriter, res *vh.Result, bound time.Duration
 			d.goProc("t", &local{}, Step{Op: "Get"}, Step{Op: "StartEnd", Via: "new"}, Step{Op: "StartEnd", Via: "old"}),
 			d.goProc("r", &local{}, Step{Op: "Register", C: "u1"}),
 		}
-		for j, ch := range others {
-			d.await(ch, fmt.Sprintf("concurrent caller %d returns while Shutdown is in progress", j))
+		// the statement does not say that these return while the Shutdown is still in progress: a caller
+		// may wait for it (counted); after the release every one of them must return (d.end)
+		for _, ch := range others {
+			if d.soon(ch) {
+				res.Count("slow_shutdown_concurrent_caller_returned_meanwhile", 1)
+			} else {
+				res.Count("slow_shutdown_concurrent_caller_waited", 1)
+			}
 		}
 	}
 	close(g.release)
@@ -282,8 +316,11 @@ func slowUnregister(i int, tw *vh.TraceWriter, res *vh.Result, bound time.Durati
 			d.goProc("s1", &local{}, Step{Op: "Shutdown", Ctx: "live"}),
 			d.goProc("s2", &local{}, Step{Op: "Shutdown", Ctx: "live"}),
 		}
-		// End does not take the provider lock: it must not wait for the Unregister in progress
-		d.await(d.goProc("t", &local{}, Step{Op: "StartEnd", Via: "old"}), "StartEnd while Unregister is in progress")
+		// End does not take the provider lock today; whether it may wait for the Unregister in progress is not
+		// the statement's business (counted)
+		if d.soon(d.goProc("t", &local{}, Step{Op: "StartEnd", Via: "old"})) {
+			res.Count("slow_unregister_startend_returned_meanwhile", 1)
+		}
 		time.Sleep(2 * time.Millisecond) // let the others queue up on the provider lock
 	}
 	close(g.release)
